@@ -146,6 +146,8 @@ class Package:
             return ("return", f(*args, **kwargs))
         except ModelRaise as e:
             return ("raise", e.kind, e.what)
+        except RecursionError:
+            return ("raise", "RecursionError", "unbounded recursion on a small model")
         except Unsupported as e:
             fi = self.repo.funcs.get((rel, name))
             raise AnalysisError(f"{name}: unrecognised idiom: {e}", rel, fi.node.lineno if fi else None)
@@ -160,5 +162,7 @@ class Package:
             return ("return", clo(self_obj, *args, **kwargs))
         except ModelRaise as e:
             return ("raise", e.kind, e.what)
+        except RecursionError:
+            return ("raise", "RecursionError", "unbounded recursion on a small model")
         except Unsupported as e:
             raise AnalysisError(f"{qual}: unrecognised idiom: {e}", cls_rel, fi.node.lineno)
